@@ -930,6 +930,10 @@ int EGLPNUM_TYPENAME_ILLlib_newrow (
 
 	rval = EGLPNUM_TYPENAME_ILLlib_addrow (lp, B, 0, 0, 0, rhs, sense, range, name);
 	CHECKRVALG (rval, CLEANUP);
+	/* the stored dual norms have no entry for the new row: drop them rather than
+	 * hand an array that is one short to the next dual simplex call */
+	if (B)
+		EGLPNUM_TYPENAME_EGlpNumFreeArray (B->rownorms);
 
 CLEANUP:
 
